@@ -1,10 +1,11 @@
 CONSTANTS
   IdPolicy = "max"
-  MaxDepth = 2
+  MaxDepth = 1
   MaxArts = 4
-  MaxSteps = 7
+  MaxSteps = 12
+  NTexts = 1
   GenDepth = 99
-  Ops = {"mkbundle","mkcat","post","delart","delitem","get","list","cats","reload","setname"}
+  Ops = {"mkcat","post","delart","delitem","reload"}
   Thin = TRUE
 INIT Init
 NEXT Next
